@@ -16,7 +16,9 @@ props! {
     c04: C04: "C04",
     c05: C05: "C05",
     c06: C06: "C06",
+    c13: C13: "C13",
     c14: C14: "C14",
     c15: C15: "C15",
     c16: C16: "C16",
+    c17: C17: "C17",
 }
